@@ -12,17 +12,19 @@ from vf.scen import CLOSED, CONNECTED, HS, INIT, OPENED, World
 PROPERTY = "C19"
 
 (DRAIN, TIMER, C_START, C_FINISH, M_UP, C_DISC, C_FORCE, C_CMD, C_SUB, C_REQ, CONNECT_OK, CONNECT_ERR,
- D_HELLO, D_DISCREQ, D_GARBAGE, EOF, RESET, TURN, C_CONNECT, D_BADAUTH) = range(20)
+ D_HELLO, D_DISCREQ, D_GARBAGE, EOF, RESET, TURN, C_CONNECT, D_BADAUTH, D_HELLO_DISC, RESOLVE_OK) = range(22)
 NAMES = ["DRAIN", "TIMER", "C_START", "C_FINISH", "M_UP", "C_DISC", "C_FORCE", "C_CMD", "C_SUB", "C_REQ", "CONNECT_OK",
-         "CONNECT_ERR", "D_HELLO", "D_DISCREQ", "D_GARBAGE", "EOF", "RESET", "TURN", "C_CONNECT", "D_BADAUTH"]
+         "CONNECT_ERR", "D_HELLO", "D_DISCREQ", "D_GARBAGE", "EOF", "RESET", "TURN", "C_CONNECT", "D_BADAUTH", "D_HELLO_DISC", "RESOLVE_OK"]
 NA = len(NAMES)
 SH0 = shard_int("SH0", 0)
 SH1LO = shard_int("SH1LO", 0)
 SH1HI = shard_int("SH1HI", 20)
 CMODE = shard_int("CMODE", 0)  # 0: TCP connect completes at once; 1: stays pending until CONNECT_OK / CONNECT_ERR
+ONSTOP = shard_int("ONSTOP", 0)  # 1: the stop callback of the application reconnects at once
 PREFIX = shard_int("PREFIX", 0)  # concrete history before the symbolic events
 PREFIX_NAMES = ["fresh client", "session up", "session ended by device", "started, not finished", "started then disconnect()",
-                "started then disconnect(force=True)", "failed attempt (connect error)", "session ended by disconnect()", "auth failure"]
+                "started then disconnect(force=True)", "failed attempt (connect error)", "session ended by disconnect()", "auth failure",
+                "attempt resolving the address", "attempt resolving, then disconnect(force=True) and a new attempt in the same turn", "hello sent, responses pending"]
 
 
 class Run:
@@ -50,10 +52,24 @@ class Run:
 
         async def on_stop(expected):
             self.user_stops.append(expected)
+            if ONSTOP and len(self.user_stops) <= 2:
+                # the application reconnects from inside its stop callback: by then the session is over,
+                # so the client is idle and must accept
+                idle = not (self.attempt_in_progress() or self.session_alive())
+                try:
+                    await self.cli.start_connection(self.on_stop)
+                except APIConnectionError as e:
+                    if idle and "Already connected" in str(e):
+                        self.fail(f"start_connection() called from the stop callback was refused with 'Already connected' although the session is over; trace={self.trace}")
+                except Exception:  # noqa: BLE001
+                    pass
 
         self.on_stop = on_stop
         self.cli = world.new_client()
         self.calls = []  # (kind, task)
+        self.dead = []  # connections on which a close cause has taken effect
+        self.dying = []  # ... will have taken effect after the next loop iteration (reset)
+        self.disc_calls = []  # (kind, task, connection): a graceful disconnect is over when its call returned
         self.trace = []
         self.viol = None
 
@@ -64,15 +80,31 @@ class Run:
     def cur(self):
         return self.conns[-1] if self.conns else None
 
+    def is_dead(self, c) -> bool:
+        return any(c is d for d in self.dead)
+
     def attempt_in_progress(self) -> bool:
         if self.phase_pending():
             return True
         c = self.cur()
-        return c is not None and c.connection_state in (OPENED, HS)
+        return c is not None and not self.is_dead(c) and c.connection_state in (OPENED, HS)
 
     def session_alive(self) -> bool:
         c = self.cur()
-        return c is not None and c.connection_state is CONNECTED
+        return c is not None and not self.is_dead(c) and c.connection_state is CONNECTED
+
+    def kill(self, c) -> None:
+        """a close cause has taken effect on connection c (independent of the state it reports)."""
+        if c is not None and not self.is_dead(c):
+            self.dead.append(c)
+
+    def settle_dying(self) -> None:
+        for c in self.dying:
+            self.kill(c)
+        self.dying = []
+        for k, t, c in self.disc_calls:
+            if t.done():
+                self.kill(c)
 
     # ---- calls
     def eager(self, kind, coro):
@@ -143,6 +175,7 @@ class Run:
         while self.loop._ready and n < 300:
             self.loop.turn()
             n += 1
+        self.settle_dying()
 
     def apply(self, ev: int) -> bool:
         w, loop, cli = self.w, self.loop, self.cli
@@ -155,6 +188,7 @@ class Run:
             if not loop._ready:
                 return False
             loop.turn()
+            self.settle_dying()
         elif ev == TIMER:
             self.drain()
             if loop.next_timer() is None:
@@ -189,9 +223,18 @@ class Run:
             w.feed(scen.HELLO_OK + scen.CONNECT_OK)
             self.drain()
         elif ev == C_DISC:
-            self.eager("disc", cli.disconnect())
+            c = self.cur()
+            t = self.eager("disc", cli.disconnect())
+            self.disc_calls.append(("disc", t, c))
+            self.settle_dying()
         elif ev == C_FORCE:
-            self.eager("disc", cli.disconnect(force=True))
+            c = self.cur()
+            t = self.eager("disc", cli.disconnect(force=True))
+            self.disc_calls.append(("force", t, c))
+            self.settle_dying()
+        elif ev == RESOLVE_OK:
+            if not w.complete_resolve():
+                return False
         elif ev == C_CMD:
             self.do_work("cmd")
         elif ev == C_SUB:
@@ -204,20 +247,26 @@ class Run:
         elif ev == CONNECT_ERR:
             if not w.fail_connect():
                 return False
-        elif ev in (D_HELLO, D_DISCREQ, D_GARBAGE, D_BADAUTH):
+        elif ev in (D_HELLO, D_DISCREQ, D_GARBAGE, D_BADAUTH, D_HELLO_DISC):
             data = {D_HELLO: scen.HELLO_OK + scen.CONNECT_OK, D_DISCREQ: scen.DISC_REQ, D_GARBAGE: scen.GARBAGE,
-                    D_BADAUTH: scen.HELLO_OK + scen.CONNECT_BAD}[ev]
+                    D_BADAUTH: scen.HELLO_OK + scen.CONNECT_BAD, D_HELLO_DISC: scen.HELLO_OK + scen.CONNECT_OK + scen.DISC_REQ}[ev]
+            c = self.cur()
             if not w.feed(data):
                 return False
+            if ev in (D_DISCREQ, D_GARBAGE, D_HELLO_DISC):
+                self.kill(c)  # the device ended the session / broke the framing: processed synchronously
         elif ev == EOF:
             tr = w.transport
             if tr is None or tr.closing or not tr.made:
                 return False
+            c = self.cur()
             tr.feed_eof()
+            self.kill(c)
         elif ev == RESET:
             tr = w.transport
             if tr is None or tr.closing or not tr.made:
                 return False
+            self.dying.append(self.cur())
             tr.feed_reset()
         return True
 
@@ -253,6 +302,20 @@ class Run:
             A(C_START)
             self.drain()
             self.w.connect_mode = old
+            return
+        if p in (9, 10):
+            self.w.resolve_mode = "pending"
+            A(C_START)
+            self.drain()
+            if p == 10:
+                A(C_FORCE)
+                A(C_START)
+            return
+        if p == 11:
+            A(C_START)
+            self.drain()
+            self.eager("finish", self.cli.finish_connection(True))
+            self.drain()
             return
         if p == 8:
             A(C_START)
@@ -296,6 +359,11 @@ def _run(events: list) -> bool:
             return False
         if r.viol is not None:
             return track.fail(r.viol[0], r.viol[1])
+        for kind, t in r.calls:
+            if t.done() and not t.cancelled():
+                e = t.exception()
+                if e is not None and not isinstance(e, (APIConnectionError, RuntimeError)):
+                    return track.fail(f"{kind} call ended with {type(e).__name__}: {e} -- not a connection error; trace={r.trace}")
         return True
     finally:
         r.close()
@@ -359,16 +427,16 @@ def _second_enabled(prefix: int, cmode: int, ev0: int, lo: int, hi: int) -> bool
 def shards(tier: str) -> list:
     out = []
     fn = "h19_3" if tier == "quick" else "h19_4"
-    combos = [(p, 0) for p in range(9)] + [(0, 1), (6, 1)]
-    for p, cm in combos:
+    combos = [(p, 0, 0) for p in range(12)] + [(0, 1, 0), (6, 1, 0), (1, 0, 1)]
+    for p, cm, ons in combos:
         # histories after which the client is idle again enable far more follow-ups: split the second event
         splits = [(0, 5), (5, 10), (10, 15), (15, NA)] if (p == 6 or tier != "quick") else [(0, NA)]
         for ev in _enabled_first(p, cm):
             for lo, hi in splits:
                 if len(splits) > 1 and not _second_enabled(p, cm, ev, lo, hi):
                     continue  # nothing in this slice is enabled: the shard would be vacuous
-                out.append({"fn": fn, "env": {"PREFIX": p, "CMODE": cm, "SH0": ev, "SH1LO": lo, "SH1HI": hi}, "cond_timeout": 600 if tier == "quick" else 2400, "path_timeout": 60,
-                            "desc": f"history '{PREFIX_NAMES[p]}' (connect {'immediate' if cm == 0 else 'pending'}), first event {NAMES[ev]}, second in [{lo},{hi}), then {1 if tier == 'quick' else 2} more symbolic events"})
+                out.append({"fn": fn, "env": {"PREFIX": p, "CMODE": cm, "SH0": ev, "SH1LO": lo, "SH1HI": hi, "ONSTOP": ons}, "cond_timeout": 600 if tier == "quick" else 2400, "path_timeout": 60,
+                            "desc": f"history '{PREFIX_NAMES[p]}'{' with a stop callback that reconnects at once' if ons else ''} (connect {'immediate' if cm == 0 else 'pending'}), first event {NAMES[ev]}, second in [{lo},{hi}), then {1 if tier == 'quick' else 2} more symbolic events"})
     return out
 
 
